@@ -4,6 +4,8 @@ import (
 	"context"
 	"hash"
 	"os"
+	"path/filepath"
+	"strings"
 
 	"github.com/pkg/errors"
 	"github.com/tonistiigi/fsutil/types"
@@ -23,6 +25,9 @@ func getWalkerFn(root string) walkerFn {
 	return func(ctx context.Context, pathC chan<- *currentPath) error {
 		return errors.Wrap(Walk(ctx, root, nil, func(path string, f os.FileInfo, err error) error {
 			if err != nil {
+				if underReplacedDir(root, path) {
+					return filepath.SkipDir
+				}
 				return err
 			}
 
@@ -44,6 +49,26 @@ func getWalkerFn(root string) walkerFn {
 			}
 		}), "failed to walk")
 	}
+}
+
+// underReplacedDir reports whether an ancestor of path below root is no
+// longer a directory. The names of a directory are listed before they are
+// visited, and the receiver replaces entries of the tree while it is being
+// walked: once a listed directory has become a symlink, its names resolve
+// through that link (or fail to: ELOOP, EACCES) and are not entries of the
+// walked tree any more.
+func underReplacedDir(root, path string) bool {
+	dir := root
+	for _, c := range strings.Split(filepath.Dir(filepath.FromSlash(path)), string(filepath.Separator)) {
+		if c == "" || c == "." {
+			continue
+		}
+		dir = filepath.Join(dir, c)
+		if fi, err := os.Lstat(dir); err == nil && !fi.IsDir() {
+			return true
+		}
+	}
+	return false
 }
 
 func emptyWalker(ctx context.Context, pathC chan<- *currentPath) error {
